@@ -18,6 +18,26 @@ pub mod collections {
             slots: [Option<T>; crate::CAP],
         }
 
+        /// plain slot iterator (`Flatten` costs ~10x more loop unwindings in CBMC)
+        pub struct Iter<'a, T> {
+            slots: &'a [Option<T>; crate::CAP],
+            i: usize,
+        }
+
+        impl<'a, T> Iterator for Iter<'a, T> {
+            type Item = &'a T;
+            fn next(&mut self) -> Option<&'a T> {
+                while self.i < crate::CAP {
+                    let k = self.i;
+                    self.i += 1;
+                    if let Some(x) = &self.slots[k] {
+                        return Some(x);
+                    }
+                }
+                None
+            }
+        }
+
         impl<T: Ord> Default for BinaryHeap<T> {
             fn default() -> Self {
                 Self::new()
@@ -112,8 +132,11 @@ pub mod collections {
                     j += 1;
                 }
             }
-            pub fn iter(&self) -> core::iter::Flatten<core::slice::Iter<'_, Option<T>>> {
-                self.slots.iter().flatten()
+            pub fn iter(&self) -> Iter<'_, T> {
+                Iter {
+                    slots: &self.slots,
+                    i: 0,
+                }
             }
             pub fn clear(&mut self) {
                 let mut j = 0;
